@@ -266,8 +266,10 @@ func (db *Database) buildTFIDFSearcher() {
 // SearchUniversal performs BM25F search over the index with optional platform/pipeline filters.
 func (db *Database) SearchUniversal(query string, options SearchOptions) []SearchResult {
 	if db.uIndex == nil || db.uIndex.N != len(db.Commands) {
-		// (Re)build lazily if needed
+		// (Re)build lazily if needed: the index AND the re-ranker (TF-IDF searcher, pointer
+		// map) must describe the commands being searched
 		db.BuildUniversalIndex()
+		db.buildTFIDFSearcher()
 	}
 
 	if options.Limit <= 0 {
